@@ -3,7 +3,7 @@
    distinct (each comes from its own increment of ParserGenerator.counter).  Invariant over the call maker and the
    work list: the queue is only ever extended at its end, by rules named after fresh counter values. *)
 From Coq Require Import List String NArith Bool Arith Lia.
-From Pegen Require Import Base.StrUtil Grammar.Ast Analysis.Visitor Analysis.Nullable Gen.Gen Proofs.GenRefs.
+From Pegen Require Import Base.StrUtil Grammar.Ast Analysis.Visitor Analysis.Nullable Gen.Gen Proofs.GenRefs Proofs.DecimalInj.
 Import ListNotations.
 Open Scope string_scope.
 
@@ -17,7 +17,8 @@ Definition numbered (new : list rule) (ks : list nat) : Prop := Forall2 (fun r k
 Definition ext (st st' : gst) : Prop :=
   g_counter st <= g_counter st' /\
   exists new ks, g_todo st' = (g_todo st ++ new)%list /\ numbered new ks /\ NoDup ks /\
-                 Forall (fun k => g_counter st < k <= g_counter st') ks.
+                 Forall (fun k => g_counter st < k <= g_counter st') ks /\
+                 g_counter st' = g_counter st + List.length new.
 
 Lemma nodup_app_disj {A} (l1 l2 : list A) : NoDup l1 -> NoDup l2 -> (forall x, In x l1 -> In x l2 -> False) -> NoDup (l1 ++ l2).
 Proof.
@@ -27,32 +28,28 @@ Proof.
 Qed.
 
 Lemma ext_refl st : ext st st.
-Proof. split; [lia|]. exists [], []. split; [rewrite app_nil_r; reflexivity|]. split; [constructor|]. split; constructor. Qed.
+Proof. split; [lia|]. exists [], []. split; [rewrite app_nil_r; reflexivity|]. split; [constructor|]. split; [constructor|]. split; [constructor|cbn; lia]. Qed.
 
 Lemma ext_trans st s1 s2 : ext st s1 -> ext s1 s2 -> ext st s2.
 Proof.
-  intros (L1 & n1 & k1 & T1 & N1 & D1 & B1) (L2 & n2 & k2 & T2 & N2 & D2 & B2). split; [lia|].
+  intros (L1 & n1 & k1 & T1 & N1 & D1 & B1 & C1) (L2 & n2 & k2 & T2 & N2 & D2 & B2 & C2). split; [lia|].
   exists (n1 ++ n2)%list, (k1 ++ k2)%list. split; [rewrite T2, T1, app_assoc; reflexivity|].
-  split; [apply Forall2_app; assumption|]. rewrite Forall_forall in B1, B2. split.
+  split; [apply Forall2_app; assumption|]. rewrite Forall_forall in B1, B2. split; [|split].
   - apply nodup_app_disj; [exact D1|exact D2|]. intros x H1 H2. specialize (B1 x H1). specialize (B2 x H2). lia.
   - apply Forall_forall. intros x Hx. apply in_app_or in Hx as [Hx|Hx]; [specialize (B1 x Hx)|specialize (B2 x Hx)]; lia.
+  - rewrite app_length. lia.
 Qed.
 
 Lemma ext_same st s : g_todo s = g_todo st -> g_counter s = g_counter st -> ext st s.
 Proof.
-  intros Ht Hc. split; [lia|]. exists [], []. split; [rewrite app_nil_r; exact Ht|]. split; [constructor|]. split; constructor.
-Qed.
-
-Lemma ext_counter st s : g_todo s = g_todo st -> g_counter s = S (g_counter st) -> ext st s.
-Proof.
-  intros Ht Hc. split; [lia|]. exists [], []. split; [rewrite app_nil_r; exact Ht|]. split; [constructor|]. split; constructor.
+  intros Ht Hc. split; [lia|]. exists [], []. split; [rewrite app_nil_r; exact Ht|]. split; [constructor|]. split; [constructor|]. split; [constructor|cbn; lia].
 Qed.
 
 Lemma new_helper st s r : g_todo s = (g_todo st ++ [r])%list -> g_counter s = S (g_counter st) ->
   helper_name (rname r) (S (g_counter st)) -> ext st s.
 Proof.
   intros Ht Hc Hn. split; [lia|]. exists [r], [S (g_counter st)]. split; [exact Ht|]. split; [constructor; [exact Hn|constructor]|].
-  split; [constructor; [intros []|constructor]|]. constructor; [lia|constructor].
+  split; [constructor; [intros []|constructor]|]. split; [constructor; [lia|constructor]|cbn; lia].
 Qed.
 
 Lemma new_helper2 st s r1 r2 : g_todo s = (g_todo st ++ [r1; r2])%list -> g_counter s = S (S (g_counter st)) ->
@@ -61,7 +58,7 @@ Proof.
   intros Ht Hc H1 H2. split; [lia|]. exists [r1; r2], [S (S (g_counter st)); S (g_counter st)]. split; [exact Ht|].
   split; [constructor; [exact H1|constructor; [exact H2|constructor]]|]. split.
   - constructor; [intros [E|[]]; lia|constructor; [intros []|constructor]].
-  - constructor; [lia|constructor; [lia|constructor]].
+  - split; [constructor; [lia|constructor; [lia|constructor]]|cbn; lia].
 Qed.
 
 (* what the primitive actions do to the queue and the counter *)
@@ -222,30 +219,75 @@ Qed.
 Lemma emit_all_names : forall fuel st ms st',
   emit_all invalid_tbl iter_fields rs0 nullable_rules left_rec leaders item_flag fuel st = (inl ms, st') ->
   exists new ks, map m_name ms = (map rname (g_todo st) ++ map rname new)%list /\ numbered new ks /\ NoDup ks /\
-                 Forall (fun k => g_counter st < k) ks.
+                 Forall (fun k => g_counter st < k <= g_counter st + List.length new) ks.
 Proof.
   induction fuel as [|f IH]; intros st ms st' H; cbn [emit_all] in H; [discriminate|].
   apply gbind_inv in H as (o & t0 & F0 & H). unfold pop_todo in F0. destruct (g_todo st) as [|r rest] eqn:Et.
   - injection F0 as <- <-. apply gret_spec in H as (-> & _). exists [], []. split; [reflexivity|]. split; [constructor|]. split; constructor.
   - injection F0 as <- <-.
     apply gbind_inv in H as (m & t1 & F1 & H). apply gbind_inv in H as (ms0 & t2 & F2 & H). apply gret_spec in H as (-> & _).
-    destruct (emit_rule_ext _ _ _ _ F1) as ((L1 & n1 & k1 & T1 & N1 & D1 & B1) & Hm). cbn [g_todo g_counter] in *.
+    destruct (emit_rule_ext _ _ _ _ F1) as ((L1 & n1 & k1 & T1 & N1 & D1 & B1 & C1) & Hm). cbn [g_todo g_counter] in *.
     destruct (IH _ _ _ F2) as (n2 & k2 & E2 & N2 & D2 & B2).
     exists (n1 ++ n2)%list, (k1 ++ k2)%list. split; [|split; [apply Forall2_app; assumption|split]].
     + cbn [map]. rewrite Hm, E2, T1, !map_app, <- app_assoc. reflexivity.
     + rewrite Forall_forall in B1, B2. apply nodup_app_disj; [exact D1|exact D2|]. intros x H1 H2. specialize (B1 x H1). specialize (B2 x H2). lia.
-    + rewrite Forall_forall in *. intros x Hx. apply in_app_or in Hx as [Hx|Hx]; [specialize (B1 x Hx)|specialize (B2 x Hx)]; lia.
+    + rewrite Forall_forall in *. rewrite app_length. intros x Hx. apply in_app_or in Hx as [Hx|Hx]; [specialize (B1 x Hx)|specialize (B2 x Hx)]; lia.
 Qed.
 End EmitSec.
 
 Theorem generated_methods_follow_the_rules invalid_tbl iter_fields module_prefix module_suffix filename fresh_base g an M :
   generate invalid_tbl iter_fields module_prefix module_suffix filename fresh_base g an = inl M ->
   exists helpers ks, map m_name (i_meths M) = (map rname (rules g) ++ map rname helpers)%list /\
-                     numbered helpers ks /\ NoDup ks.
+                     numbered helpers ks /\ NoDup ks /\ Forall (fun k => k <= List.length helpers) ks.
 Proof.
   unfold generate. intros H.
   match type of H with (match ?e with _ => _ end) = _ => destruct e as [[ms|err] st] eqn:E end; [|discriminate].
   injection H as <-. cbn [i_meths].
-  destruct (emit_all_names _ _ _ _ _ _ _ _ _ _ _ E) as (new & ks & A & B & C & _). cbn [g_todo] in A.
-  exists new, ks. split; [exact A|]. split; [exact B|exact C].
+  destruct (emit_all_names _ _ _ _ _ _ _ _ _ _ _ E) as (new & ks & A & B & C & D). cbn [g_todo g_counter] in A, D.
+  exists new, ks. split; [exact A|]. split; [exact B|]. split; [exact C|].
+  eapply Forall_impl; [|exact D]. cbn. intros k Hk. lia.
+Qed.
+
+(* ---------- distinct numbers give distinct names ---------- *)
+Lemma forall2_in_l {A B} (P : A -> B -> Prop) l1 l2 x : Forall2 P l1 l2 -> In x l1 -> exists y, In y l2 /\ P x y.
+Proof.
+  induction 1 as [|a b l1 l2 Hab _ IH]; intros Hin; [destruct Hin|]. destruct Hin as [<-|Hin].
+  - exists b. split; [left; reflexivity|exact Hab].
+  - destruct (IH Hin) as (y & Hy & Py). exists y. split; [right; exact Hy|exact Py].
+Qed.
+
+Ltac differ_at n E := apply (f_equal (String.get n)) in E; cbn [String.append String.get] in E; discriminate E.
+Lemma helper_name_inj n j k : helper_name n j -> helper_name n k -> small j -> small k -> j = k.
+Proof.
+  intros Hj Hk Sj Sk. apply nat_to_string_inj; [exact Sj|exact Sk|].
+  destruct Hj as [-> | [-> | [-> | ->]]]; destruct Hk as [E | [E | [E | E]]];
+    first [exact (append_inj_l _ _ _ E) | differ_at 1 E | differ_at 5 E].
+Qed.
+
+Lemma helper_starts_underscore n k : helper_name n k -> startswith "_" n = true.
+Proof. intros [-> | [-> | [-> | ->]]]; unfold startswith; cbn [String.append String.prefix]; rewrite ?Ascii.eqb_refl; reflexivity. Qed.
+
+Lemma helper_names_distinct : forall new ks, numbered new ks -> NoDup ks -> Forall small ks -> NoDup (map rname new).
+Proof.
+  induction 1 as [|r k new ks Hrk Hrest IH]; intros Hnd Hs; cbn [map]; [constructor|].
+  inversion Hnd as [|? ? Hk Hnd']; subst. inversion Hs as [|? ? Sk Ss]; subst. constructor; [|exact (IH Hnd' Ss)].
+  intros Hin. apply in_map_iff in Hin as (r' & E & Hr'). destruct (forall2_in_l _ _ _ _ Hrest Hr') as (k' & Hk' & Pk').
+  rewrite E in Pk'. rewrite Forall_forall in Ss. pose proof (helper_name_inj _ _ _ Hrk Pk' Sk (Ss _ Hk')) as ->. exact (Hk Hk').
+Qed.
+
+Theorem generated_method_names_distinct invalid_tbl iter_fields module_prefix module_suffix filename fresh_base g an M :
+  generate invalid_tbl iter_fields module_prefix module_suffix filename fresh_base g an = inl M ->
+  NoDup (map rname (rules g)) -> (forall r, In r (rules g) -> startswith "_" (rname r) = false) ->
+  small (List.length (i_meths M)) ->
+  NoDup (map m_name (i_meths M)).
+Proof.
+  intros H Hnd Hus Hsm. destruct (generated_methods_follow_the_rules _ _ _ _ _ _ _ _ _ H) as (helpers & ks & A & B & C & D).
+  assert (Hlen : List.length (i_meths M) = List.length (rules g) + List.length helpers).
+  { rewrite <- (map_length m_name), A, app_length, !map_length. reflexivity. }
+  assert (Hs : Forall small ks).
+  { eapply Forall_impl; [|exact D]. cbn. intros k Hk. unfold small in *. rewrite Hlen in Hsm.
+    apply N.le_lt_trans with (m := N.of_nat (List.length (rules g) + List.length helpers)); [|exact Hsm]. lia. }
+  rewrite A. apply nodup_app_disj; [exact Hnd|exact (helper_names_distinct _ _ B C Hs)|].
+  intros x H1 H2. apply in_map_iff in H1 as (r & <- & Hr). apply in_map_iff in H2 as (r' & E & Hr').
+  destruct (forall2_in_l _ _ _ _ B Hr') as (k & _ & Pk). apply helper_starts_underscore in Pk. rewrite E, (Hus r Hr) in Pk. discriminate.
 Qed.
